@@ -45,7 +45,7 @@ impl Check for C08 {
         "natural-mu"
     }
     fn cases(&self, tier: Tier) -> usize {
-        tier.pick(25_000, 600_000)
+        tier.pick(50_000, 1_200_000)
     }
     fn strategy(&self, _tier: Tier) -> BoxedStrategy<Case> {
         let c = cfg();
